@@ -22,6 +22,10 @@ def facts():
         from vt.loops import _appnames
         return T._single_atom(a.args[1], "ind") is not None and "y" in _appnames(a.args[1])
     F.pos_preds = [class_nonempty]                                   # every class has at least one sample
+    # sample points for numeric refutation: distinct labels, every class populated, enough rows for a definite scatter
+    F.dim_values = {"N": [6, 7], "D": [2], "K_pi1": [2, 3]}
+    F.samplers = {"pi1": lambda args, env: int(args[0]),
+                  "y": lambda args, env: int(args[0]) % int(env._default("sym", "K_pi1", ()))}
     return F
 
 
